@@ -111,9 +111,14 @@ func c12Child(a *ChildArgs) {
 			"UPDATE t SET a = -", "SELECT +(1", "SELECT a FROM t WHERE - - - ", "DELETE FROM t WHERE a BETWEEN 1 AND", "SELECT CAST(a AS", "SELECT a[", "SELECT (((((", "SELECT a FROM t LIMIT 1, 2",
 			// statements cut short right before their terminator: the terminator is not theirs to consume
 			"SELECT MATCH(a) AGAINST ('x' IN BOOLEAN MODE FROM t", "SHOW TABLES FROM", "SHOW", "SELECT a FROM t LIMIT 1.5",
-			"SHOW CREATE", "SHOW CREATE TABLE", "SHOW CREATE VIEW", "SHOW COLUMNS FROM", "SHOW INDEX FROM", "DESCRIBE", "EXPLAIN"}
+			"SHOW CREATE", "SHOW CREATE TABLE", "SHOW CREATE VIEW", "SHOW COLUMNS FROM", "SHOW INDEX FROM", "DESCRIBE", "EXPLAIN",
+			// ... after a word that announces a clause, and after the dot of a qualified name
+			"INSERT INTO t (a) VALUES (1) ON", "INSERT INTO t (a) VALUES (1) ON CONFLICT", "DROP TABLE s .", "INSERT INTO s .", "SELECT a FROM s .", "DELETE FROM s .", "TRUNCATE TABLE s .", "UPDATE s .",
+			"SELECT a FROM t JOIN s .", "CREATE TABLE s .", "SELECT a FROM t ORDER", "SELECT a FROM t GROUP", "SELECT a FROM t LEFT", "MERGE INTO t USING",
+			"SELECT a FROM t WHERE b < INTERVAL 30", "SELECT INTERVAL 1", "SELECT (a + INTERVAL 2"}
 		// (SHOW without a target is malformed by the documented SHOW forms, whatever a lenient parse of it alone says)
-		forcedBad := map[string]bool{"SHOW TABLES FROM": true, "SHOW": true, "SHOW CREATE": true, "SHOW CREATE TABLE": true, "SHOW CREATE VIEW": true, "SHOW COLUMNS FROM": true, "SHOW INDEX FROM": true, "DESCRIBE": true}
+		forcedBad := map[string]bool{"SHOW TABLES FROM": true, "SHOW": true, "SHOW CREATE": true, "SHOW CREATE TABLE": true, "SHOW CREATE VIEW": true, "SHOW COLUMNS FROM": true, "SHOW INDEX FROM": true, "DESCRIBE": true,
+			"SELECT a FROM t WHERE b < INTERVAL 30": true, "SELECT INTERVAL 1": true} // (an interval needs a unit; the end of the input is not one)
 		goods := []string{"SELECT COUNT(a) FROM t WHERE (a = 1)", "SELECT a FROM t WHERE b IN (SELECT c FROM u WHERE (d = 1))", "SELECT CASE WHEN (a = 1) THEN f(g(b)) ELSE -c END FROM t", "SELECT a FROM t"}
 		for bi, bad := range bads {
 			if _, err := gosqlx.Parse(bad); err == nil && !forcedBad[bad] {
